@@ -109,6 +109,28 @@ func (fx *FnCtx) resolveType(name string, pkg *types.Package) types.Type {
 	if strings.HasPrefix(name, "*") {
 		return types.NewPointer(fx.resolveType(name[1:], pkg))
 	}
+	if strings.HasPrefix(name, "map[") {
+		depth, k := 0, -1
+		for i := 3; i < len(name); i++ {
+			if name[i] == '[' {
+				depth++
+			} else if name[i] == ']' {
+				depth--
+				if depth == 0 {
+					k = i
+					break
+				}
+			}
+		}
+		if k < 0 {
+			return nil
+		}
+		kt, vt := fx.resolveType(name[4:k], pkg), fx.resolveType(name[k+1:], pkg)
+		if kt == nil || vt == nil {
+			return nil
+		}
+		return types.NewMap(kt, vt)
+	}
 	if name == "byte" {
 		return types.Typ[types.Uint8]
 	}
@@ -245,6 +267,17 @@ func (fx *FnCtx) evalSpec(env *Env, e SpecExpr) SV {
 				fx.specFail(e, "ghost map key type mismatch")
 			}
 			return SV{V: Value{T: m.Elem(), L: []*Term{Select(base.V.L[0], key.V.L[0])}}}
+		}
+		if _, ok := base.V.T.Underlying().(*types.Map); ok && len(base.V.L) == 1 && base.V.L[0].Sort.Kind != SArray {
+			// a real map: the stored value (meaningful when has(m, k))
+			mh := fx.mapInfo(base.V.T)
+			key := fx.typed(fx.evalSpec(env, x.I), mh.mt.Key())
+			k := fx.mapKey(mh, key.V)
+			out := Value{T: mh.mt.Elem()}
+			for _, n := range mh.vals {
+				out.L = append(out.L, Select(Select(fx.mapHeap(env.st, n), base.V.L[0]), k))
+			}
+			return SV{V: out}
 		}
 		idx := fx.evalIdx(env, x.I)
 		switch u := base.V.T.Underlying().(type) {
@@ -441,6 +474,11 @@ func (fx *FnCtx) evalField(env *Env, x *SField) SV {
 		}
 		p := fx.asPtr(base.V)
 		for k := 0; k < stt.NumFields(); k++ {
+			if stt.Field(k).Name() == x.Name && embeddedFields[stt.Field(k)] {
+				// an embedded object: the expression denotes (a pointer to) that object
+				ep := fx.embeddedPtr(p, stt, k)
+				return SV{V: Value{T: types.NewPointer(stt.Field(k).Type()), P: ep}}
+			}
 			if stt.Field(k).Name() == x.Name {
 				off, _ := tc.fieldRange(stt, k)
 				np := *p
@@ -911,6 +949,51 @@ func (fx *FnCtx) evalCall(env *Env, x *SCall) SV {
 			fx.specFail(x, "at() needs a slice")
 		}
 		return SV{V: fx.readElem(env.st, sl.Elem(), a.V.L[0], k)}
+	case "visited":
+		// visited(N, k): key k has already been produced by the map iterator advanced in the header of loop N
+		nn, ok := x.Args[0].(*SNum)
+		if !ok {
+			fx.specFail(x, "visited(loop ordinal, key)")
+		}
+		ord, _ := strconv.Atoi(nn.Text)
+		top := fx.root.top
+		if top == nil || top.loops == nil || ord >= len(top.loops.loops) {
+			fx.specFail(x, "visited: no loop %d", ord)
+		}
+		var rng *ssa.Range
+		for _, ins := range top.loops.loops[ord].header.Instrs {
+			if nx, ok := ins.(*ssa.Next); ok {
+				rng, _ = nx.Iter.(*ssa.Range)
+			}
+		}
+		if rng == nil {
+			fx.specFail(x, "visited: loop %d does not range over a map", ord)
+		}
+		g, ok := env.st.Ghost[top.iterName(rng)]
+		if !ok {
+			fx.specFail(x, "visited: iterator not started here")
+		}
+		mh := fx.mapInfo(rng.X.Type())
+		key := fx.typed(fx.evalSpec(env, x.Args[1]), mh.mt.Key())
+		return boolSV(Select(g.L[0], fx.mapKey(mh, key.V)))
+	case "lockstate":
+		// lockstate(m): ghost state of the sync.Mutex/RWMutex object m points to:
+		// 0 free, -1 write-locked, n > 0 read-locked n times
+		m := fx.evalSpec(env, x.Args[0])
+		p := fx.asPtr(m.V)
+		if p.Kind != PObj || p.Off != 0 {
+			fx.specFail(x, "lockstate needs a pointer to a mutex object (declare the mutex field embedded)")
+		}
+		return intSV(Select(fx.ghostHeap(env.st, "G:lock"), p.Ref))
+	case "has":
+		// has(m, k): key k is present in map m
+		m := fx.evalSpec(env, x.Args[0])
+		if _, ok := m.V.T.Underlying().(*types.Map); !ok {
+			fx.specFail(x, "has() needs a map")
+		}
+		mh := fx.mapInfo(m.V.T)
+		key := fx.typed(fx.evalSpec(env, x.Args[1]), mh.mt.Key())
+		return boolSV(Select(Select(fx.mapHeap(env.st, mh.dom), m.V.L[0]), fx.mapKey(mh, key.V)))
 	case "sameArray":
 		a := fx.evalSpec(env, x.Args[0])
 		b := fx.evalSpec(env, x.Args[1])
@@ -988,7 +1071,26 @@ func (fx *FnCtx) evalCall(env *Env, x *SCall) SV {
 		out := Value{T: rtyp}
 		for _, lf := range lay.Leaves {
 			f := DeclareUF("uf_"+tc.Mode.String()+"_"+sf.Name+lf.Path, argSorts, lf.Sort)
-			out.L = append(out.L, f.App(argTerms...))
+			app := f.App(argTerms...)
+			out.L = append(out.L, app)
+			// the result has the declared Go type: its range (int mode) holds for every argument
+			marker := Sym("ufrange$"+f.Name, BoolSort)
+			if facts := tc.leafFacts(lf, app); len(facts) > 0 && !fx.root.heapAxiomDone[marker] && len(argSorts) > 0 {
+				fx.root.heapAxiomDone[marker] = true
+				var bvs []*Term
+				for i, s := range argSorts {
+					bvs = append(bvs, BoundVar(fmt.Sprintf("u%d", i), s))
+				}
+				ga := f.App(bvs...)
+				for _, fct := range tc.leafFacts(lf, ga) {
+					fx.root.axioms = append(fx.root.axioms, Forall(bvs, fct, []*Term{ga}))
+				}
+			}
+			if !app.hasBnd {
+				for _, fct := range tc.leafFacts(lf, app) {
+					fx.root.axioms = append(fx.root.axioms, fct)
+				}
+			}
 		}
 		return SV{V: out}
 	}
